@@ -18,7 +18,7 @@ TEXT = {
                    "name denotes; in interface mode the member pointer handed to log() is the callback the wrapper invokes",
     "C16.requests": "every function that queues a Transition{origin, dest, TYPE} logs recordTransition(context, origin, TYPE, dest) with the same constant and "
                     "destination; cancelPendingTransitions logs every cancellation (unconditionally, with the origin); succeed/fail log the task status; "
-                    "updatePlan logs the plan status; select / utility / random resolutions log the chosen prong",
+                    "updatePlan logs the plan status; select / utility / random resolutions log the chosen prong, directly after the requested prong is written (no structural walk in between)",
     "C16.logger-identity": "the user's logger is reached through a pointer or reference everywhere: no library function takes, holds or returns a "
                            "LoggerInterfaceT by value (a by-value copy is sliced to the interface class, whose record* members are the empty defaults, so the "
                            "report never reaches the user's object); the interface-mode S_::log overloads either record exactly "
@@ -404,6 +404,7 @@ def check_requests(ctx, F):
         # exactly one resolution event of the function's kind on every path (several sites are fine when they lie on different paths)
         bad = None
         bad_arg = None
+        bad_order = None
         for p in sym_paths(F, fid, 2):
             ctx.paths += 1
             if any(ev[0] == "assume" and "logger" in ev[2] and not ev[3] for ev in p):
@@ -411,6 +412,19 @@ def check_requests(ctx, F):
             logs = [F.fn(ev[2])["name"] for ev in p if ev[0] == "call" and ev[2] is not None and F.fn(ev[2])["name"] in LOGGER_METHODS]
             if logs != [RES[b["name"]]]:
                 bad = logs
+            # "in the order it happens": the resolution happens where the region's requested prong is written; nothing that can reach a user
+            # callback or the logger (a structural deep* / wide* / wrap* walk) runs between that write and its report
+            if b["name"] != "resolveRandom":
+                wi = [i for i, ev in enumerate(p) if ev[0] == "write" and "compoRequested" in str(ev[2])]
+                li = [i for i, ev in enumerate(p) if ev[0] == "call" and ev[2] is not None and F.fn(ev[2])["name"] == RES[b["name"]]]
+                if wi and li:
+                    between = [F.fn(ev[2]) for ev in p[wi[-1] + 1:li[0]] if ev[0] == "call" and ev[2] is not None]
+                    late = ["%s::%s" % (f.get("cls"), f["name"]) for f in between if f.get("cls") in ("S_", "C_", "O_", "CS_", "OS_", "A_")
+                            and f["name"] not in ("compoRequested", "compoActive", "compoResumable", "compoRemain", "orthoRequested")]
+                    if li[0] < wi[-1]:
+                        bad_order = "reports the resolution before the requested prong is written"
+                    elif late:
+                        bad_order = "reports the resolution only after %s ran: the callbacks and resolutions of the walk below it are logged first" % late
             # what is reported is what was resolved: the prong argument is the region's requested prong (resolveRandom: the value it returns)
             for ev in p:
                 if ev[0] == "call" and ev[2] is not None and F.fn(ev[2])["name"] == RES[b["name"]]:
@@ -424,6 +438,8 @@ def check_requests(ctx, F):
                         bad_arg = "logs prong `%s`, not the region's requested prong (compoRequested[COMPO_INDEX])" % prong
         if bad is not None or not calls:
             ctx.violation("C16.requests", site, "%s (%s)" % (site, F.floc(fid)), "%s logs %s on a path, expected one %s" % (site, bad, RES[b["name"]]), {})
+        if bad_order:
+            ctx.violation("C16.requests", site + "/order", "%s (%s)" % (site, F.floc(fid)), "%s %s (the log no longer mirrors the order of events)" % (site, bad_order), {})
         if bad_arg:
             ctx.violation("C16.requests", site + "/prong", "%s (%s)" % (site, F.floc(fid)), "%s %s: the logger is told a resolution that did not happen" % (site, bad_arg), {})
         elif len(calls[0][1]) >= 3:
